@@ -125,6 +125,25 @@ func ruleC08CopyFields(c *Ctx) {
 				c.Check(got[need], "c08.copy-fields", key+"/"+need+"/present", c.P.Pos(f.Pos()),
 					"field is carried into the per-dimension copy", "field "+need+" is not carried into the per-dimension copy used by exec")
 			}
+			// completeness: every field of Query is carried, or is one of the enumerated per-copy resets
+			reset := map[string]string{
+				"wg":       "a copy waits for its own outstanding calls (zero WaitGroup)",
+				"dual":     "an inner array is never the dual pseudo-table",
+				"ident":    "used by the join builder only, before execution",
+				"distinct": "not carried on this tree; DISTINCT is outside C08's filter/projection grammar",
+				"postProcessors":      "a copy runs its own post-processors (fresh list)",
+				"singletonExecutions": "a copy evaluates its own rows: fresh memo (c07.own-state)",
+			}
+			if qt := c.P.namedStruct(modPath, "Query"); qt != nil {
+				for i := 0; i < qt.NumFields(); i++ {
+					fn := qt.Field(i).Name()
+					_, isReset := reset[fn]
+					c.Check(got[fn] || isReset, "c08.copy-fields", key+"/"+fn+"/accounted", c.P.Pos(f.Pos()),
+						"carried into the copy or an enumerated per-copy reset", "field "+fn+" of Query is neither carried into the per-dimension copy nor an enumerated per-copy reset: state the statement builder put there is lost for inner arrays")
+				}
+			} else {
+				c.Unknown("c08.copy-fields", key+"/fields", c.P.Pos(f.Pos()), "anchor lost: type Query")
+			}
 			var missing []string
 			for _, opt := range []string{"distinct", "singletonExecutions", "groupDefinition", "havingDefinition", "orderByDefinition", "limitDefinition", "offsetDefinition"} {
 				if !got[opt] {
@@ -297,4 +316,128 @@ func rangeLoops(fn *ssa.Function) []*loopInfo {
 		out = append(out, l)
 	}
 	return out
+}
+
+
+func init() { register("C08", ruleC08MixShape, ruleC08AsArrayIdentity, ruleExecKeptFresh) }
+
+// ruleC08MixShape: the flattening loop.
+func ruleC08MixShape(c *Ctx) {
+	c.Doc("c08.mix-shape", "array flattening (MixArray): each iteration appends exactly once — for an element that is an array, the spread of the recursive flattening of that very element, whatever its length; for any other element, the element itself; no other condition selects between the two (an empty inner array contributes nothing)")
+	f := c.P.Func(modPath, "MixArray")
+	if f == nil {
+		c.Unknown("c08.mix-shape", "MixArray", "-", "anchor lost")
+		return
+	}
+	c.Fn("MixArray")
+	loops := rangeLoops(f)
+	if len(loops) != 1 {
+		c.Unknown("c08.mix-shape", "MixArray", c.P.Pos(f.Pos()), fmt.Sprintf("%d loops", len(loops)))
+		return
+	}
+	lp := loops[0]
+	paths, err := WalkFrom(f, lp.body, lp.header, WalkCfg{StopAt: func(b *ssa.BasicBlock) bool { return b == lp.header }, MaxVisits: 1})
+	if err != nil {
+		c.Unknown("c08.mix-shape", "MixArray", c.P.Pos(f.Pos()), err.Error())
+		return
+	}
+	var why []string
+	nArr, nOther := 0, 0
+	for _, p := range paths {
+		if p.Exit != "stop" {
+			why = append(why, "an iteration leaves the loop ("+p.Exit+")")
+			continue
+		}
+		isArr, has := false, false
+		for k, v := range p.Asg {
+			if kt := p.KeyTerm[k]; kt != nil && kt.Op == "ext" && kt.Name == "1" && kt.Args[0].Op == "assertok" && kt.Args[0].Name == "[]any" {
+				has, isArr = true, isTrueC(v)
+			}
+		}
+		if !has {
+			why = append(why, "an iteration does not test whether the element is an array")
+			continue
+		}
+		var apps []*Effect
+		for i := range p.Effects {
+			if isAppendOf(p.Effects[i]) {
+				apps = append(apps, &p.Effects[i])
+			}
+		}
+		if len(apps) != 1 {
+			why = append(why, fmt.Sprintf("an iteration appends %d times", len(apps)))
+			continue
+		}
+		arg := apps[0].Args[1]
+		if isArr {
+			nArr++
+			a, ok := callArgs(arg, "MixArray")
+			if !ok || len(a) != 1 || !strings.Contains(a[0].String(), "assertok[[]any]") || !elemOfLoop(a[0].Args[0].Args[0], lp) {
+				why = append(why, "an array element contributes "+arg.String()+" instead of the spread of its own flattening")
+			}
+		} else {
+			nOther++
+			if !(arg.Op == "varargs" && len(arg.Args) == 1 && elemOfLoop(arg.Args[0], lp)) {
+				why = append(why, "a non-array element contributes "+arg.String()+" instead of itself")
+			}
+		}
+	}
+	if nArr != 1 || nOther != 1 {
+		why = append(why, fmt.Sprintf("iteration paths: array=%d other=%d (exactly one each expected: no further condition)", nArr, nOther))
+	}
+	c.Check(len(why) == 0, "c08.mix-shape", "MixArray", c.P.Pos(f.Pos()), "array => spread of its flattening; other => itself; one append per element", strings.Join(uniq(why), "; "))
+}
+
+// ruleC08AsArrayIdentity: a []any source is taken as it is.
+func ruleC08AsArrayIdentity(c *Ctx) {
+	c.Doc("c08.source-identity", "source normalisation (AsArray): a []any value is returned as it is on every path of that arm (no unwrapping of single-element arrays, no flattening: the nesting of the source is the nesting of the result); a Map becomes a one-element list of itself")
+	f := c.P.Func(modPath, "AsArray")
+	if f == nil {
+		c.Unknown("c08.source-identity", "AsArray", "-", "anchor lost")
+		return
+	}
+	c.Fn("AsArray")
+	paths, err := WalkFunc(f, WalkCfg{MaxVisits: 1})
+	if err != nil {
+		c.Unknown("c08.source-identity", "AsArray", c.P.Pos(f.Pos()), err.Error())
+		return
+	}
+	pn := f.Params[0].Name()
+	var why []string
+	nSlice, nMap := 0, 0
+	for _, p := range paths {
+		if p.Exit != "return" || len(p.Ret) != 2 {
+			continue
+		}
+		kind := ""
+		for _, k := range p.Order {
+			if kt := p.KeyTerm[k]; kt != nil && kt.Op == "ext" && kt.Name == "1" && kt.Args[0].Op == "assertok" && kt.Args[0].Args[0].Op == "param" {
+				if v, _ := p.Assumed(k); v && kind == "" {
+					kind = kt.Args[0].Name
+				}
+			}
+		}
+		switch kind {
+		case "[]any":
+			nSlice++
+			if !p.Ret[1].Nil || termStr(p.Ret[0].T) != "assertok[[]any](p:"+pn+")#0" {
+				why = append(why, "a []any source yields "+avString(p.Ret[0])+" (error "+avString(p.Ret[1])+") instead of itself")
+			}
+		case "Map":
+			nMap++
+			stored := 0
+			for _, e := range p.Effects {
+				if e.Kind == "store" && len(e.Args) == 2 && strings.Contains(e.Args[1].String(), "assertok[Map](p:"+pn+")#0") {
+					stored++
+				}
+			}
+			if !p.Ret[1].Nil || !strings.HasPrefix(termStr(p.Ret[0].T), "slice:alloc:slicelit") || stored != 1 {
+				why = append(why, "a Map source yields "+avString(p.Ret[0])+" instead of a one-element list of itself")
+			}
+		}
+	}
+	if nSlice != 1 || nMap != 1 {
+		why = append(why, fmt.Sprintf("paths: []any=%d Map=%d (one each expected)", nSlice, nMap))
+	}
+	c.Check(len(why) == 0, "c08.source-identity", "AsArray", c.P.Pos(f.Pos()), "[]any => itself (single path), Map => [itself]", strings.Join(uniq(why), "; "))
 }
